@@ -122,7 +122,13 @@ func randEditFields(r *core.Rng) string {
 			return decimalOfE7(v/scale*scale, d)
 		}
 	}
-	return fmt.Sprintf("%s %s %d %d %s %s %s %s %s %s %d", tts[r.Intn(len(tts))], tcs[r.Intn(len(tcs))], r.Intn(256), r.Intn(256), dec(), dec(), dec(), dec(), dec(), dec(), r.Intn(256))
+	zoom := func() int {
+		if r.Chance(1, 5) {
+			return 0 // an explicit zero must be applied like any other value
+		}
+		return r.Intn(256)
+	}
+	return fmt.Sprintf("%s %s %d %d %s %s %s %s %s %s %d", tts[r.Intn(len(tts))], tcs[r.Intn(len(tcs))], zoom(), zoom(), dec(), dec(), dec(), dec(), dec(), dec(), zoom())
 }
 
 func headerJSONText(f []string) string {
@@ -487,6 +493,27 @@ func (C14) Oracle(line, goOut string) string {
 			return "header-only edit changed the metadata"
 		}
 		bh, ah := before.h, after.h
+		// what was asked for is what the header now says
+		_, restH := splitTok(body, "H")
+		editT, _ := splitTok(restH, "A")
+		if len(editT) == 11 {
+			z := func(s string) uint8 { v, _ := strconv.Atoi(s); return uint8(v) }
+			if ah.MinZoom != z(editT[2]) || ah.MaxZoom != z(editT[3]) || ah.CenterZoom != z(editT[10]) {
+				return fmt.Sprintf("edit asked for zooms %s/%s/%s, the header now has %d/%d/%d", editT[2], editT[3], editT[10], ah.MinZoom, ah.MaxZoom, ah.CenterZoom)
+			}
+			got := []int32{ah.MinLonE7, ah.MinLatE7, ah.MaxLonE7, ah.MaxLatE7, ah.CenterLonE7, ah.CenterLatE7}
+			for i, k := range []int{4, 5, 6, 7, 8, 9} {
+				if want, ok := exactE7(editT[k]); ok && want >= -2147483648 && want <= 2147483647 && int64(got[i]) != want {
+					return fmt.Sprintf("edit asked for coordinate %s, the header stores %d (exact value %d)", editT[k], got[i], want)
+				}
+			}
+			if tt, ok := map[string]pmtiles.TileType{"mvt": pmtiles.Mvt, "png": pmtiles.Png, "jpg": pmtiles.Jpeg, "webp": pmtiles.Webp, "avif": pmtiles.Avif}[editT[0]]; ok && ah.TileType != tt {
+				return fmt.Sprintf("edit asked for tile type %s, the header has %d", editT[0], ah.TileType)
+			}
+			if tc, ok := map[string]pmtiles.Compression{"none": pmtiles.NoCompression, "gzip": pmtiles.Gzip, "br": pmtiles.Brotli, "zstd": pmtiles.Zstd}[editT[1]]; ok && ah.TileCompression != tc {
+				return fmt.Sprintf("edit asked for tile compression %s, the header has %d", editT[1], ah.TileCompression)
+			}
+		}
 		if ah.AddressedTilesCount != bh.AddressedTilesCount || ah.TileEntriesCount != bh.TileEntriesCount || ah.TileContentsCount != bh.TileContentsCount || ah.Clustered != bh.Clustered || ah.InternalCompression != bh.InternalCompression {
 			return "a non-editable header field changed"
 		}
